@@ -390,6 +390,9 @@ class ModuleEnv:
         if name == 'enumerate':
             start = eng.need_int(args[1], st, node).t if len(args) > 1 else z3.IntVal(0)
             return VConst(('enumerate', args[0], start))
+        if name == 'reversed' and len(args) == 1 and isinstance(args[0], (VList, VSeq, VTuple, VRange)):
+            n_, g_ = eng.as_sequence(args[0], st)      # builtin: the same elements from the last to the first
+            return VSeq(n_, lambda i, n_=n_, g_=g_: g_(n_ - 1 - i))
         if name == 'zip':
             return VConst(('zip', tuple(args)))
         if name == 'zip_longest':
